@@ -8,6 +8,7 @@ Theorem C42_error_atomic :
     actuals_match (cf_params f) actuals = true ->
     all_hold guard_holds st actuals (cf_guards f) = true ->
     all_hold class_holds st actuals (cf_casts f) = true ->
+    zguard_fires actuals (cf_zguards f) = None ->
     resolve_all st actuals (cf_args f) = Some cargs ->
     (cf_tmpl f =? "$") = false ->
     core k (cf_tmpl f) cargs = ErrExn cls ->
